@@ -59,24 +59,24 @@ Theorem closure_is_package_stack : forall is_upper h stack self params body,
 Proof. exact PkgProofs.closure_is_package_stack. Qed.
 Print Assumptions closure_is_package_stack.
 
-Theorem inside_full_access : forall is_upper h params args own outer m n v,
+Theorem inside_full_access : forall is_upper fuel h params args own outer m n v,
   scope_map h own = Some m -> assoc m n = Some v ->
   assoc (zip_params params args) n = None ->
-  run_body is_upper h params (BGet n) (own :: outer) args = Ok (h, v).
+  run_body is_upper fuel h params (BGet n) (own :: outer) args = Ok (h, v).
 Proof. exact PkgProofs.inside_full_access. Qed.
 Print Assumptions inside_full_access.
 
-Theorem inside_full_access_set : forall is_upper h params a args own outer m n old,
+Theorem inside_full_access_set : forall is_upper fuel h params a args own outer m n old,
   scope_map h own = Some m -> assoc m n = Some old ->
   assoc (zip_params params (a :: args)) n = None ->
-  run_body is_upper h params (BSet n) (own :: outer) (a :: args) = Ok (scope_set h own n a, a).
+  run_body is_upper fuel h params (BSet n) (own :: outer) (a :: args) = Ok (scope_set h own n a, a).
 Proof. exact PkgProofs.inside_full_access_set. Qed.
 Print Assumptions inside_full_access_set.
 
-Theorem inside_sees_enclosing : forall is_upper h params args clos n v s,
+Theorem inside_sees_enclosing : forall is_upper fuel h params args clos n v s,
   assoc (zip_params params args) n = None ->
   stack_lookup h clos n = Some (v, s) ->
-  run_body is_upper h params (BGet n) clos args = Ok (h, v).
+  run_body is_upper fuel h params (BGet n) clos args = Ok (h, v).
 Proof. exact PkgProofs.inside_sees_enclosing. Qed.
 Print Assumptions inside_sees_enclosing.
 
@@ -84,16 +84,16 @@ Print Assumptions inside_sees_enclosing.
    function's own lexical context -- parameters, then the scopes captured at definition -- and the
    rest of the walk obeys [visible]; the caller's bindings (globals defined later are shadowed by the
    package's own member, parameters/locals of a calling function) never reach the callee *)
-Theorem inside_dot_read_is_visible : forall is_upper h params clos args p,
+Theorem inside_dot_read_is_visible : forall is_upper fuel h params clos args p,
   names_ok p ->
-  verdict_of (run_body is_upper h params (BDot p) clos args)
+  verdict_of (run_body is_upper fuel h params (BDot p) clos args)
     = spec_path is_upper h (zip_params params args) clos p None.
 Proof. exact PkgProofs.inside_dot_read_is_visible. Qed.
 Print Assumptions inside_dot_read_is_visible.
 
-Theorem inside_dot_write_is_visible : forall is_upper h params clos a args p,
+Theorem inside_dot_write_is_visible : forall is_upper fuel h params clos a args p,
   names_ok p ->
-  verdict_of (run_body is_upper h params (BDotSet p) clos (a :: args))
+  verdict_of (run_body is_upper fuel h params (BDotSet p) clos (a :: args))
     = spec_path is_upper h (zip_params params (a :: args)) clos p (Some a).
 Proof. exact PkgProofs.inside_dot_write_is_visible. Qed.
 Print Assumptions inside_dot_write_is_visible.
@@ -110,6 +110,28 @@ Theorem caller_bindings_do_not_leak : forall is_upper h frame stack key rest arg
   call_path is_upper h frame stack (key :: rest) args = call_path is_upper h [] stack (key :: rest) args.
 Proof. exact PkgProofs.caller_bindings_do_not_leak. Qed.
 Print Assumptions caller_bindings_do_not_leak.
+
+(* a call through a dot path made INSIDE a function (facade) reaches the member the path yields under
+   the rule, to any nesting depth; the calling function's own name plays no role *)
+Theorem inside_call_is_spec : forall is_upper fuel h params body clos args,
+  funs_ok is_upper h -> body_ok body ->
+  verdict_of (run_body is_upper fuel h params body clos args)
+    = spec_body is_upper fuel h params body clos args.
+Proof. exact PkgProofs.inside_call_is_spec. Qed.
+Print Assumptions inside_call_is_spec.
+
+(* assignment whose right-hand side is a dot path: the source must be readable, then the value is assigned *)
+Theorem assign_from_path_is_visible : forall is_upper h target source,
+  names_ok target -> names_ok source ->
+  verdict_of (run_op is_upper h (OpSetFrom target source)) = spec_op is_upper h (OpSetFrom target source).
+Proof. exact PkgProofs.assign_from_path_is_visible. Qed.
+Print Assumptions assign_from_path_is_visible.
+
+Theorem assign_from_private_source_stores_nothing : forall is_upper h target source e,
+  dot_get_set is_upper h [] [0%nat] source None = Err e ->
+  run_op is_upper h (OpSetFrom target source) = Err e.
+Proof. exact PkgProofs.assign_from_private_source_stores_nothing. Qed.
+Print Assumptions assign_from_private_source_stores_nothing.
 
 (* ---- 4. non-vacuity ---- *)
 Example ex_package_in_nested_hash :
@@ -143,3 +165,29 @@ Proof. exact PkgProofs.ex_write_private_denied_public_allowed. Qed.
 Example ex_inside_reads_private :
   run_op ascii_upper demo_heap (OpCall [n_pk; n_Get] []) = Ok (demo_heap, VInt 2).
 Proof. exact PkgProofs.ex_inside_reads_private. Qed.
+
+Example ex_nil_member_obeys_the_rule :
+  run_op ascii_upper demo2_heap (OpGet [n_pk; n_nn]) = Err (EPriv n_nn n_pk) /\
+  run_op ascii_upper demo2_heap (OpSet [n_pk; n_nn] 5) = Err (EPriv n_nn n_pk) /\
+  run_op ascii_upper demo2_heap (OpGet [n_pk; n_Nn]) = Ok (demo2_heap, VNull) /\
+  match run_op ascii_upper demo2_heap (OpSet [n_pk; n_Nn] 5) with
+  | Ok (h', _) => run_op ascii_upper h' (OpGet [n_pk; n_Nn]) = Ok (h', VInt 5)
+  | _ => False
+  end.
+Proof. exact PkgProofs.ex_nil_member_obeys_the_rule. Qed.
+
+Example ex_assign_from_path :
+  run_op ascii_upper demo2_heap (OpSetFrom [n_pk; n_Pub] [n_pk; n_priv]) = Err (EPriv n_priv n_pk) /\
+  match run_op ascii_upper demo2_heap (OpSetFrom [n_pk; n_Nn] [n_pk; n_Pub]) with
+  | Ok (h', VInt 1) => run_op ascii_upper h' (OpGet [n_pk; n_Nn]) = Ok (h', VInt 1)
+  | _ => False
+  end.
+Proof. exact PkgProofs.ex_assign_from_path. Qed.
+
+Example ex_facade_with_the_callees_name :
+  run_op ascii_upper demo2_heap (OpCall [n_pk; n_Scale] [3]) = Ok (demo2_heap, VInt 7) /\
+  match run_op ascii_upper demo2_heap (OpCallVia n_Scale n_x n_pk [n_pk; n_Scale] [3]) with
+  | Ok (_, VInt 7) => True
+  | _ => False
+  end.
+Proof. exact PkgProofs.ex_facade_with_the_callees_name. Qed.
